@@ -160,7 +160,10 @@ def c_array(p):
         readout = "{% assign r = " + expr + " %}[{% for e in r %}{% unless forloop.first %},{% endunless %}{% if e == nil %}null{% else %}{{ e | json }}{% endif %}{% endfor %}]"
     else:
         readout = "{{ " + expr + " | json }}"
+    before = json.loads(json.dumps(xs))  # (taken before the render: the case's own list is what a filter working in place would change)
     o = render(readout + "~{{ x | json }}", data)
+    if xs != before:
+        return [(f"array:{f}:input-mutated", f"{expr}: the list passed as render data was {before!r} and is {xs!r} after the render")]
     fails = []
     if o[0] != "ok":
         exp_err = p.get("may_error")
@@ -172,8 +175,8 @@ def c_array(p):
         res, orig = json.loads(res_s), json.loads(orig_s)
     except ValueError:
         return [(f"array:{f}:badjson", o[1][:200])]
-    if orig != json.loads(json.dumps(xs)):
-        fails.append((f"array:{f}:input-mutated", f"{expr}: input {xs!r} became {orig!r}"))
+    if orig != before:
+        fails.append((f"array:{f}:input-mutated", f"{expr}: input {before!r} became {orig!r}"))
     if not isinstance(res, list):
         return [*fails, (f"array:{f}:not-a-list", f"{expr} with {xs!r} -> {res!r}")]
 
@@ -358,12 +361,14 @@ def c_math(p):
 
 
 def c_default(p):
-    x, d = p["x"], p["d"]
-    o = jrender("x | default: d", {"x": x, "d": d})
-    falls_back = x == UNDEF or x is None or x is False or x == "" or x == [] or x == {}
+    x, d, af = p["x"], p["d"], p.get("af")
+    expr = "x | default: d" + ("" if af is None else ", allow_false: af")
+    o = jrender(expr, {"x": x, "d": d, "af": af})
+    # allow_false only takes false out of the values that fall back
+    falls_back = x == UNDEF or x is None or (x is False and af is not True) or x == "" or x == [] or x == {}
     want = d if falls_back else x
     if o != ("ok", want) or (o[0] == "ok" and type(o[1]) is not type(want)):
-        return [("default", f"{x!r} | default: {d!r} -> {oc.short(o)}, expected {want!r}")]
+        return [("default" + ("" if af is None else ":allow_false"), f"{x!r} | default: {d!r}{'' if af is None else ', allow_false: ' + repr(af)} -> {oc.short(o)}, expected {want!r}")]
     return []
 
 
@@ -493,6 +498,8 @@ def all_cases(tier: str):
     for x in [UNDEF, None, False, True, "", " ", "a", [], [1], {}, {"a": 1}, 0, 0.0, 1, -1]:
         for d in ["d", 1, 2.5, None, [1], {"k": 1}, True, ""]:
             yield {"c": "default", "x": x, "d": d}
+            for af in (True, False):
+                yield {"c": "default", "x": x, "d": d, "af": af}
 
 
 def campaign(ctx: core.Ctx, tier: str, shard: int, nshards: int) -> None:
